@@ -41,7 +41,7 @@ def class_of(ev):
 def confirm_factory(run):
     def confirm(ev, labels):
         try:
-            return bool(rerun(run, CURVE, ev))
+            return bool([l for l in rerun(run, CURVE, ev) if not l.startswith("diag.")])
         except vlib.Infra:
             return True
     return confirm
